@@ -25,7 +25,7 @@ func devMain(args []string) {
 	intm := fs.Bool("int", false, "Int mode")
 	orders := fs.Bool("orders", false, "map orders")
 	workers := fs.Int("j", 16, "workers")
-	solver := fs.String("solver", "z3", "solver binary")
+	solver := fs.String("solver", defaultSolver(), "solver binary")
 	maxp := fs.Int("maxpaths", 0, "path budget")
 	fs.Parse(args[2:])
 	if os.Getenv("GOSYM_PROFILE") != "" {
@@ -43,7 +43,10 @@ func devMain(args []string) {
 	fmt.Printf("paths=%d completed=%d infeasible=%d steps=%d wall=%v\n", st.Paths, st.Completed, st.Infeasible, st.Steps, st.Wall)
 	fmt.Printf("solver: %+v\n", st.Solver)
 	fmt.Printf("asserts: %v (total %d)\ncovers: %v\n", st.Asserts, st.AssertsTotal, st.Covers)
-	for _, e := range st.Errors {
+	for _, e := range dedupe(st.Errors, 3) {
+		if len(e) > 600 {
+			e = e[:600]
+		}
 		fmt.Println("ERROR:", e)
 	}
 	for _, e := range st.Bounds {
